@@ -34,7 +34,7 @@ def parent_map(root):
 
 
 # ============================================================================ C07
-@rule("C07", "C07.a.lexer-end-of-stream", floor=2)
+@rule("C07", "C07.a.lexer-end-of-stream", floor=1)
 def c07a(F, R):
     """Lexer::next yields None only where the source is exhausted (the `current() == None` arm and its propagation)"""
     p = F.method(LEXER, "next", trait="Iterator")
@@ -1622,8 +1622,20 @@ def _unicode_summary(F):
     peeks = sorted(lit_value(m["args"][0]) for m in walk(body, pats=False) if m.get("k") == "MethodCall" and m["name"] == "peek" and m["args"])
     dig_i = idx_of(lambda m: m.get("k") == "MethodCall" and m["name"] == "to_digit" and m["args"] and lit_value(m["args"][0]) == 16)
     conv_i = idx_of(lambda m: m.get("k") == "Call" and (callee_of(m) or "").endswith("from_u32"))
-    skip_i = idx_of(lambda m: m.get("k") == "MethodCall" and m["name"] == "skip_char" and m["args"] and lit_value(m["args"][0]) == 4)
-    skips = [lit_value(m["args"][0]) for m in walk(body, pats=False) if m.get("k") == "MethodCall" and m["name"] == "skip_char"]
+    arrays = {st["pat"]["name"]: len(peel(st["init"])["elems"]) for st in walk(body, pats=False)
+              if st.get("k") == "Let" and st["pat"].get("k") == "PBinding" and st.get("init") is not None and peel(st["init"]).get("k") == "Array"}
+
+    def count_of(a):
+        """a literal, or `<array local>.len()` of an array literal in this function"""
+        v = lit_value(a)
+        if v is not None:
+            return v
+        a = peel(a)
+        if a.get("k") == "MethodCall" and a["name"] == "len" and not a["args"] and peel(a["recv"]).get("k") == "Path" and peel(a["recv"]).get("res") in arrays:
+            return arrays[peel(a["recv"])["res"]]
+        return None
+    skip_i = idx_of(lambda m: m.get("k") == "MethodCall" and m["name"] == "skip_char" and m["args"] and count_of(m["args"][0]) == 4)
+    skips = [count_of(m["args"][0]) for m in walk(body, pats=False) if m.get("k") == "MethodCall" and m["name"] == "skip_char"]
     consumes = [m for m in walk(body, pats=False) if m.get("k") == "MethodCall" and m["name"] == "consume_char"]
     if peeks != [2, 3, 4, 5] or not dig_i or skips != [4] or consumes:
         return "UNEXTRACTABLE: Lexer::unicode_code no longer has the reviewed shape (peek 2..5, to_digit(16), one skip_char(4))"
